@@ -7,6 +7,7 @@ from pathlib import Path
 from typing import Any, Dict, Iterator, List, Optional
 
 from core import Case, Prop, SelfCheckFailure, InfraError, exc_category, DOCUMENTED
+from core import tolerant_set as core_tolerant_set
 
 import spacepackets.seqcount as seqmod
 from spacepackets.seqcount import FileSeqCountProvider, SeqCountProvider
@@ -60,8 +61,15 @@ class _Bystander:
 #                 line's `initial` states (checked; with "rewrite" the file is replaced by `initial`, as another process
 #                 that continued the file would have left it), the live instance is switched to the line's width and the
 #                 line's steps run on it
-# Only switches after which the current value fits the new width are generated for the in-memory provider (see the note at
-# C19.assumptions).
+#   seq_mem_run, "hist": {"free": true, "phases": [[width, calls, via, count | null], ...], "count": x | null}: switches after
+#                 which the current value does NOT fit the new width (and, where `count` is a public attribute of the provider,
+#                 an out-of-range integer assigned to it right after a switch / before the line's calls). The statement claims
+#                 there that every value returned after the switch lies in [0, 2^width - 1] (and is accepted as packet sequence
+#                 count for width <= 14) and that from the first value after the switch on every value is the previous one
+#                 plus one modulo 2^width; WHICH in-range value comes first is not claimed (a reset to 0 and a reduction modulo
+#                 2^width are both right). Range and successor relation are checked in every phase by the op; the line reports
+#                 the values after the last switch relative to the first of them ((v - v0) mod 2^width), which is what the model
+#                 of a counter of that width answers for the line's n_calls.
 # --------------------------------------------------------------------------------------------
 VIAS = ["get_and_increment", "next", "dunder"]
 
@@ -103,8 +111,66 @@ def _mem_after_history(a):
     return p, c
 
 
+def _check_run(vals: List[int], w: int, what: str, first: Optional[int] = None):
+    """the statement for one stretch of calls at one width: range, packet sequence count, successor relation"""
+    top = 1 << w
+    for i, v in enumerate(vals):
+        if isinstance(v, bool) or not isinstance(v, int) or not 0 <= v < top:
+            raise SelfCheckFailure(f"{what}: call #{i + 1} returned {v!r}, outside [0, {top - 1}] (values so far {vals[:i + 1][:12]})")
+        if i and v != (vals[i - 1] + 1) % top:
+            raise SelfCheckFailure(f"{what}: call #{i + 1} returned {v} after {vals[i - 1]}; the previous value plus one modulo 2^{w} "
+                                   f"is {(vals[i - 1] + 1) % top}")
+    if first is not None and vals and vals[0] != first:
+        raise SelfCheckFailure(f"{what}: the first call returned {vals[0]}, not {first}")
+    if w <= 14:
+        for v in (vals if len(vals) <= 600 else vals[:300] + vals[-300:]):
+            _acceptable(v)
+
+
+def _assign_count(p, x) -> bool:
+    """`provider.count = x` where `count` is a public data attribute of the provider (a provider without it, or one whose
+    setter refuses the value, is simply not driven this way)"""
+    if x is None or not hasattr(p, "count") or callable(getattr(p, "count")):
+        return False
+    return core_tolerant_set(p, "count", x)
+
+
+def _mem_free_history(a):
+    """seq_mem_run line with "hist": {"free": true, ...}: see the comment above"""
+    h, w, n = a["hist"], a["width"], a["n_calls"]
+    p = None
+    story = []
+    for ph in h["phases"]:
+        wk, k, via = ph[0], ph[1], ph[2]
+        cnt = ph[3] if len(ph) > 3 else None
+        if p is None:
+            p = SeqCountProvider(wk)
+            story.append(f"SeqCountProvider({wk})")
+        else:
+            _switch(p, wk)
+            story.append(f"max_bit_width = {wk}")
+        assigned = _assign_count(p, cnt)
+        if assigned:
+            story.append(f"count = {cnt}")
+        vals = [_call(p, via, i) for i in range(k)]
+        story.append(f"{k} calls")
+        _check_run(vals, wk, "; ".join(story), first=0 if len(story) == 2 else None)
+    if p is None:
+        raise InfraError("malformed line: a history needs phases")
+    _switch(p, w)
+    story.append(f"max_bit_width = {w}")
+    if _assign_count(p, h.get("count")):
+        story.append(f"count = {h['count']}")
+    vals = [_call(p, "mixed", i) for i in range(n)]
+    story.append(f"{n} calls")
+    _check_run(vals, w, "; ".join(story))
+    return {"values": [(v - vals[0]) % (1 << w) for v in vals]}
+
+
 def op_seq_mem_run(a):
     w, n = a["width"], a["n_calls"]
+    if a.get("hist") and a["hist"].get("free"):
+        return _mem_free_history(a)
     if a.get("hist"):
         p, c = _mem_after_history(a)
         ref = SeqCountProvider(w)
@@ -341,13 +407,14 @@ class C19(Prop):
         "the first line is shorter than CPython's integer string conversion limit (4300 digits) and width < 14000",
         "the file is not touched by anyone else between two operations; crash points inside a call are outside the statement",
         "the width is a non-negative integer; when it is changed through the documented max_bit_width setter in the middle of a "
-        "history (case key 'hist'), the provider is compared from there on with the model of a counter of the new width that "
-        "stands at the same value. For the in-memory provider only switches after which the current value fits the new width "
-        "are generated: on the unchanged tree SeqCountProvider(3), five calls, max_bit_width = 2 makes the next call return 5 "
-        "(outside [0, 3]; then 2, 3, 0, ...), and SeqCountProvider(16) after 20000 calls switched to 14 bits returns 20000, which "
-        "PacketSeqCtrl refuses - the statement's 'every returned value lies in [0, 2^width - 1]' read with the width in force at "
-        "the call does not hold there; the file-backed provider refuses such a stored value with ValueError on every call "
-        "until create_new(), like the model of the new width does (those lines are generated)",
+        "history (case key 'hist'), the provider is compared from there on with the model of a counter of the new width: "
+        "standing at the same value when that value fits the new width (exact reference); when it does not fit (in-memory "
+        "provider: also after an out-of-range integer was assigned to the public `count` attribute), the statement is read as "
+        "'every value returned from then on lies in [0, 2^width - 1], is accepted as packet sequence count for width <= 14, and is "
+        "the previous value plus one modulo 2^width' - which in-range value comes first is not claimed (reset to 0 and reduction "
+        "modulo 2^width are both accepted; the values are compared with the model relative to the first one). The file-backed "
+        "provider refuses a stored value that does not fit the new width with ValueError on every call until create_new(), like "
+        "the model of the new width does",
     ]
 
     def impl_ops(self):
@@ -495,6 +562,37 @@ class C19(Prop):
             if c is not None and w_new != phases[-1][0]:
                 made += 1
                 yield c
+
+        # ---- in-memory provider, switches the current value does NOT fit (and `count` assigned out of range) ----
+        def free(phases, w_new, n_after, tag, count=None):
+            return Case({"op": "seq_mem_run", "width": w_new, "n_calls": n_after,
+                         "hist": {"free": True, "phases": [list(ph) for ph in phases], "count": count}}, "valid", tag=tag)
+
+        vias = VIAS + ["mixed"]
+        for w_old in small:
+            for w_new in small:
+                if w_new >= w_old:
+                    continue
+                top, low = 1 << w_old, 1 << w_new
+                ks = {low, low + 1, top - 1, top + low, rng.randrange(low, top)}
+                for i, k in enumerate(sorted(k for k in ks if k % top >= low)):
+                    yield free([[w_old, k, vias[(i + w_old) % 4]]], w_new, 2 * low + 3, "switch-mem-narrower-nonfitting")
+        yield free([[16, 20000, "get_and_increment"]], 14, 10, "switch-mem-16-14-nonfitting")
+        yield free([[16, 65535, "mixed"]], 14, (1 << 14) + 6, "switch-mem-16-14-nonfitting")
+        yield free([[16, 16384, "next"]], 14, 3, "switch-mem-16-14-nonfitting")
+        yield free([[8, 200, "dunder"]], 0, 4, "switch-mem-narrower-nonfitting")
+        for _ in range(300 if thorough else 40):      # several switches in a row, fitting or not
+            phases = [[rng.choice(small + [14, 16]), rng.randint(0, 300), rng.choice(vias)] for _ in range(rng.randint(2, 4))]
+            w_new = rng.choice(small + [14])
+            yield free(phases, w_new, 2 * min(1 << w_new, 64) + 3, "switch-mem-chain-any")
+        # `count` (a public attribute) set to an integer outside the width, with and without a switch
+        for w in small + [14, 16]:
+            top = 1 << w
+            for x in (top, top + 5, 3 * top + 1, -1, -top - 3, (1 << 64) + 3, 10 ** 30, top - 1, 0):
+                k = rng.randint(0, 2 * min(top, 40))
+                yield free([[w, k, rng.choice(vias)]], w, min(top, 40) + 3, "count-assigned", count=x)
+                w2 = rng.choice(small)
+                yield free([[w2, k, rng.choice(vias), rng.choice([None, x])]], w, min(top, 40) + 3, "count-assigned-and-switch", count=x)
 
         # ---- file-backed provider ---------------------------------------------------------------
         def advance(v, wk, steps):
